@@ -330,6 +330,10 @@ pub fn corpora(tier: Tier) -> Vec<Corpus> {
     out.push(Corpus { name: "long-tokens".into(), lines: vec![(false, "abc/T/u ab/S c/V/w".into()), (false, "c/V/x abc/T/v a ab/S".into()), (false, "abc/R/u abc/T/u".into()), (false, "cd c d dc".into())], tag_dict: vec!["abcd/Q/q".into()] });
     out.push(Corpus { name: "multibyte-tokens".into(), lines: vec![(false, "𠀋/K/1 あ/H 𠀋あ/M/2/3/4".into()), (false, "あ/H2 𠀋/K/2 𠀋あ/M/2/3/5".into()), (false, "𠀋/L/1 あ".into()), (false, "cd c d dc".into())], tag_dict: vec![] });
     out.push(Corpus { name: "positions".into(), lines: vec![(false, "a/X b a/Y".into()), (false, "b a/X b".into()), (false, "a/Y b b".into()), (false, "b b a/X".into()), (false, "cd c d dc".into())], tag_dict: vec![] });
+    // sentences that consist of ONE token only (such an occurrence has no tag feature at all, but it
+    // still counts as an observation of its tags), alone and next to ordinary occurrences
+    out.push(Corpus { name: "one-token-sentences".into(), lines: vec![(false, "a/X".into()), (false, "a/Y b".into()), (false, "b/S".into()), (false, "ab/Z/q".into()), (false, "cd c d dc".into())], tag_dict: vec!["ab/D".into(), "q/F".into()] });
+    out.push(Corpus { name: "only-one-token-sentences".into(), lines: vec![(false, "a/X".into()), (false, "a/Y".into()), (false, "あ/V/w".into()), (true, "a/Z".into()), (false, "c d".into())], tag_dict: vec!["あ/D/E".into()] });
     // partially annotated sentences
     for (n, lines) in [
         ("partial-1", vec![(true, "a/X|b-a/Y".to_string()), (true, "a b/Q|a/Z".to_string()), (true, "a/Y|a/X".to_string())]),
@@ -347,6 +351,8 @@ pub fn configs(tier: Tier) -> Vec<Config> {
     let mut out = vec![];
     let ns: Vec<(u8, u8, u8, u8)> = tier.pick(vec![(2, 1, 2, 1), (2, 2, 2, 2), (1, 2, 1, 3), (3, 3, 2, 1)], vec![(2, 1, 2, 1), (2, 2, 2, 2), (1, 2, 1, 3), (3, 3, 2, 1), (3, 1, 3, 3), (1, 3, 3, 2), (2, 3, 1, 1), (0, 2, 2, 0)]);
     let solvers: Vec<u8> = tier.pick(vec![1, 5], vec![0, 1, 2, 3, 4, 5, 6, 7]);
+    // no tag features at all (both n-gram sizes 0) and character features only / type features only
+    let ns: Vec<(u8, u8, u8, u8)> = ns.into_iter().chain([(2, 0, 2, 0), (1, 0, 2, 2), (2, 2, 1, 0)]).collect();
     for &(cw, cn, tw, tn) in &ns {
         for &sv in &solvers {
             out.push(Config { charw: cw, charn: cn, typew: tw, typen: tn, dict: vec![], bucket: 1, solver: sv });
